@@ -243,10 +243,8 @@ func ruleAddPushesOrParks(w *World, r *Report, pfx string) {
 				}
 			case *ssa.Store:
 				if f, ok := fieldOf(x.Addr); ok && f.Owner == tPState && f.Name == "idCount" {
-					if add, ok := x.Val.(*ssa.BinOp); ok && add.Op == token.ADD {
-						if k, ok := constInt(add.Y); ok && k == 1 && isLoad(Val{V: add.X}, tPState, "idCount") {
-							idInc++
-						}
+					if incrOf(x.Val, tPState, "idCount") {
+						idInc++
 					}
 				}
 			}
